@@ -102,6 +102,10 @@ where
     let mut sb = mk::<F>(depth, first);
     let mut sc = mk::<F>(depth, first);
     let mut sd = mk::<F>(depth, first);
+    // a bystander of another depth, fed the same frames as `a` and evaluated at the same position right
+    // before the others: instances must not influence one another
+    let by_depth = depth + 12;
+    let mut bystander = mk::<F>(by_depth, 0);
     let mut twin: Option<Sinc<Vec<F>>> = None;
     let mut hist: Vec<Vec<f64>> = Vec::new(); // frames fed to A since the last reset
     let mut peak_a = 0.0f64;
@@ -146,6 +150,7 @@ where
                 let c: Vec<f64> = a.iter().zip(b.iter()).map(|(a, b)| alpha * a + beta * b).collect();
                 let fa = F::from_f64s(&a);
                 sa.next_source_frame(fa);
+                bystander.next_source_frame(fa);
                 sb.next_source_frame(F::from_f64s(&b));
                 if linear_ok {
                     sc.next_source_frame(F::from_f64s(&c));
@@ -180,9 +185,11 @@ where
                 if x == 0.0 || x >= 1.0 - f64::EPSILON || x < 1e-100 {
                     obs.fault(F_FRACTION_EDGE);
                 }
+                let oby = bystander.interpolate(x);
                 let oa = sa.interpolate(x);
                 let ob = sb.interpolate(x);
                 let od = sd.interpolate(x);
+                check!(obs, finite(oby), "sinc.finite", "interpolate({}) of the depth-{} bystander is not finite", x, by_depth);
                 obs.note(oa.bits());
                 check!(obs, finite(oa) && finite(ob) && finite(od), "sinc.finite", "interpolate({}) after {} frames (depth {}) is not finite: {:?}", x, fed, depth, oa);
                 let ga = oa.to_f64s();
